@@ -1,10 +1,20 @@
 use crate::{atomics::AtomicU64, cow::Cow, IntoLabels, KeyHasher, Label, SharedString};
+#[cfg(not(metrics_verif))]
 use std::{
     borrow::Borrow,
     cmp, fmt,
     hash::{Hash, Hasher},
     slice::Iter,
     sync::atomic::{AtomicBool, Ordering},
+};
+#[cfg(metrics_verif)]
+use crate::verif::atomic::{AtomicBool, Ordering};
+#[cfg(metrics_verif)]
+use std::{
+    borrow::Borrow,
+    cmp, fmt,
+    hash::{Hash, Hasher},
+    slice::Iter,
 };
 
 const NO_LABELS: [Label; 0] = [];
